@@ -138,14 +138,25 @@ def _debug_logging_on():
     warnings.filterwarnings("error", module=r"webauthn(\..*)?$")
 
 
+def _logging_silenced():
+    """The opposite process state: a deployment that has switched logging off altogether (`logging.disable(CRITICAL)`), so
+    that `logger.isEnabledFor(...)` is false for every level. Library code placed under such a guard then does not run."""
+    import logging
+    logging.disable(logging.CRITICAL)
+
+
 def _worker(args):
     fn, chunk, idx = args
     try:
-        if idx % 2 == 1:
+        mode = idx % 3        # 0: as imported; 1: DEBUG everywhere + library warnings as errors; 2: logging switched off
+        if mode == 1:
             _debug_logging_on()
+        elif mode == 2:
+            _logging_silenced()
         out = fn(chunk, idx)
-        if idx % 2 == 1 and hasattr(out, "count"):
-            out.count("process-state:logging-at-DEBUG+library-warnings-as-errors")
+        if hasattr(out, "count"):
+            out.count(["process-state:default", "process-state:logging-at-DEBUG+library-warnings-as-errors",
+                       "process-state:logging-disabled"][mode])
         return out
     except Exception:
         return {"error": traceback.format_exc()}
